@@ -273,6 +273,21 @@ theorem c06_in_force_token_bucket (A : Arith) (ops : List ULOp) (hl : opsLegal o
          simp [inForceOK, guessType, see, ratOps] at hok
          exact ⟨u, bk, h1, by rw [hload, hfc], hok.1, hok.2⟩)
 
+/-! ## every request is charged, whatever the server classified it as -/
+
+/-- **The dispatcher charges every request shape**: what is forwarded and what is answered 429 is exactly what the
+    schema's bucket answers to one `TryAcquire` per request, independent of verb, subresource, resource /
+    non-resource, long-running or upgrade — so every bound above (`c06_history`, `c06_upper_*`, `c06_lower*`) holds
+    for the forwarded requests of any mix of shapes. (A seeded change that skipped `TryAcquire` for long-running
+    requests is what the end-to-end shape stream of the harness reports.) -/
+theorem c06_every_shape_charged (A : Arith) :
+    ∀ (reqs : List (ReqShape × Rat)) (b : Bucket),
+      dispatchRun A b reqs = Bucket.runOps A b (reqs.map fun x => Op.acquire x.2)
+  | [], _ => rfl
+  | (r, now) :: rest, b => by
+    simp only [dispatchRun, dispatch, List.map_cons, Bucket.runOps, Bucket.step]
+    rw [c06_every_shape_charged A rest (b.tryAcquire A now).2]
+
 /-! ## non-vacuity: the hypotheses are satisfiable by a concrete, non-trivial bucket -/
 
 /-- `qps = 3`, `burst = 10` -/
